@@ -601,6 +601,9 @@ func c11(r *core.Run) {
 				continue
 			}
 			c11Callbacks(r, rel, n, m, idF)
+			if n == "Create" {
+				c11FanoutUnconditional(r, "C1", rel, "OnChange")
+			}
 		}
 	}
 
@@ -1316,6 +1319,43 @@ func persistentWriters(p *core.Prog, m *ssa.Function, seen map[*ssa.Function]boo
 // fanoutFuncs: the declared functions of package rel that call the listeners
 // registered through the exported Store method named setter (they load the
 // field that setter stores into and make a dynamic call).
+// c11FanoutUnconditional: a fan-out function (the function that ranges over the
+// listeners of a store) reaches its loop on every call: the read of the listener
+// list dominates every return. A fan-out that returns early on a test of the
+// values ("nothing changed") makes a successful mutation run no callback.
+func c11FanoutUnconditional(r *core.Run, rule, rel, setter string) {
+	p := r.P
+	lf := listenerFieldOf(p, rel, "Store", setter)
+	for fn := range fanoutFuncs(p, rel, setter) {
+		if fn.Signature.Recv() == nil || !strings.HasSuffix(core.TypeName(fn.Signature.Recv().Type()), "Store") {
+			continue
+		}
+		var load ssa.Instruction
+		for _, ac := range core.FieldAccesses([]*ssa.Function{fn}, func(g core.Field) bool { return g == lf }) {
+			if ac.Kind == "load" && load == nil {
+				load = ac.Instr
+			}
+		}
+		if load == nil {
+			continue
+		}
+		bad := ""
+		for _, ret := range core.Returns(fn) {
+			if fn.Recover != nil && ret.Block() == fn.Recover {
+				continue
+			}
+			if !core.Dominates(load, ret) {
+				var conds []string
+				for _, e := range dominatingEdges(ret) {
+					conds = append(conds, describeCond(e))
+				}
+				bad = "return at " + p.InstrPos(ret) + " under " + strings.Join(conds, " && ")
+			}
+		}
+		r.Check(bad == "", rule, core.FuncName(fn), "fan-out-reaches-the-listeners-on-every-call", p.InstrPos(load), "every call of the fan-out function reads the listener list and ranges over it", "the fan-out function can return without calling the listeners ("+bad+"): a mutation that succeeded - and was approved by the before-change listeners - then runs no change callback")
+	}
+}
+
 func fanoutFuncs(p *core.Prog, rel, setter string) map[*ssa.Function]bool {
 	return fanoutFuncsOf(p, rel, "Store", setter)
 }
